@@ -644,19 +644,24 @@ def chk_multi_wf(rec, be):
     sts = trains_of(rec)
     ts, te = float(rec["ts"]), float(rec["te"])
     ident = rec["call"]["idx"] == list(range(1, len(rec["tr"]) + 1))
-    for form in forms_for(rec):
-        if form == "idx_np":
-            continue
-        st, r = call(invoke, rec, sts, form)
-        n += 1
-        sub = "%s[%s,%s]" % (API[fn], be, form)
-        if st != "ok":
-            out.append(_mm(sub, "%s %s raised %s" % (sub, hdr(rec), r)))
-            continue
-        kind = norm_result(rec, r)[0]
-        pb = wf_problem(kind, r, ts, te)
-        if pb:
-            out.append(_mm(sub, "%s %s: %s" % (sub, hdr(rec), pb)))
+    modes = [None] + (["auto"] if fr(rec["mrts"]) == 0 else [])
+    for mode in modes:
+        for form in forms_for(rec):
+            if form == "idx_np" or (mode == "auto" and form not in ("idx", "sub")):
+                continue
+            if mode is None:
+                st, r = call(invoke, rec, sts, form)
+            else:
+                st, r = call(invoke_mrts, rec, sts, form, 1.0, "auto")
+            n += 1
+            sub = "%s[%s,%s%s]" % (API[fn], be, form, ",MRTS='auto'" if mode else "")
+            if st != "ok":
+                out.append(_mm(sub, "%s %s raised %s" % (sub, hdr(rec), r)))
+                continue
+            kind = norm_result(rec, r)[0]
+            pb = wf_problem(kind, r, ts, te)
+            if pb:
+                out.append(_mm(sub, "%s %s: %s" % (sub, hdr(rec), pb)))
     # the bivariate-only entry points on every ordered pair of the list (once per list: on the first profile call)
     if fn == "isi_profile" and ident:
         kw = kwargs_of(dict(rec, call=dict(rec["call"], fn="dir_matrix", norm=True)))
